@@ -6,5 +6,11 @@ MCSuites == { [cu |-> "c", hu |-> "h", hc |-> FALSE],       \* AES-CBC encrypt +
               [cu |-> "c", hu |-> "sync", hc |-> FALSE],    \* cipher only
               [cu |-> "c", hu |-> "h", hc |-> TRUE],        \* hash then (lane) cipher
               [cu |-> "sync", hu |-> "sync", hc |-> FALSE] }
+\* suites with a caller-supplied (CUSTOM) stage next to an asynchronous one
+MCCustomSuites == { [cu |-> "c", hu |-> "custom", hc |-> TRUE],      \* custom hash, then lane cipher
+                    [cu |-> "custom", hu |-> "h", hc |-> FALSE],     \* custom cipher, then lane hash
+                    [cu |-> "c", hu |-> "custom", hc |-> FALSE],
+                    [cu |-> "custom", hu |-> "custom", hc |-> FALSE],
+                    [cu |-> "c", hu |-> "h", hc |-> FALSE] }
 MCLenPairs == { <<16, 20>>, <<48, 100>> }
 =============================================================================
